@@ -113,4 +113,46 @@ theorem column_of_rows {R α : Type} (ss : List (R → α)) (rows : List R) (i :
   | nil => rfl
   | cons s ss ih => simp [List.filterMap_cons, List.getElem?_eq_getElem hi, ih]
 
+/-! ### the target buffer -/
+
+theorem zipWrite_eq_map {R β : Type} (f : R → Option β) (g : R → β) (rows : List R) (y : List β)
+    (h : ∀ r ∈ rows, f r = some (g r)) (hl : y.length = rows.length) :
+    zipWrite f rows y = some (rows.map g) := by
+  induction rows generalizing y with
+  | nil =>
+    cases y with
+    | nil => rfl
+    | cons _ _ => simp at hl
+  | cons r rs ih =>
+    cases y with
+    | nil => simp at hl
+    | cons y0 ys =>
+      have hr := h r (by simp)
+      have := ih ys (fun x hx => h x (List.mem_cons_of_mem _ hx)) (by simpa using hl)
+      simp [zipWrite, hr, this]
+
+theorem writeZip_nil_right {β : Type} (l : List β) : writeZip l [] = [] := by
+  cases l <;> rfl
+
+theorem writeZip_full {β : Type} (l y : List β) (h : l.length = y.length) : writeZip l y = l := by
+  induction l generalizing y with
+  | nil =>
+    cases y with
+    | nil => rfl
+    | cons _ _ => simp at h
+  | cons a l ih =>
+    cases y with
+    | nil => simp at h
+    | cons b ys => simp [writeZip, ih ys (by simpa using h)]
+
+/-- writing into a default-filled buffer = the `take … ++ replicate …` reading of `multiClassBatch` -/
+theorem writeZip_replicate {β : Type} (l : List β) (n : Nat) (d : β) :
+    writeZip l (List.replicate n d) = l.take n ++ List.replicate (n - l.length) d := by
+  induction l generalizing n with
+  | nil => cases n <;> simp [writeZip]
+  | cons a l ih =>
+    cases n with
+    | zero => simp [writeZip]
+    | succ n => simp [writeZip, List.replicate_succ, ih n]
+
 end LinfaSpec.Predict
